@@ -156,6 +156,7 @@ impl DefaultMetricSearcher {
 
         let mut offset = 0;
         let mut sec = 0;
+        let mut found = false;
 
         let mut reader = Cursor::new(index_data);
         while let Ok(sec_be) = ReadBytesExt::read_u64::<BigEndian>(&mut reader) {
@@ -163,8 +164,13 @@ impl DefaultMetricSearcher {
             let offset_be = ReadBytesExt::read_u64::<BigEndian>(&mut reader)?;
             offset = offset_be;
             if sec >= begin_sec {
+                found = true;
                 break;
             }
+        }
+        if !found {
+            // every second indexed here is earlier than the begin time: the caller goes on with the next file
+            return Err(Error::msg("no index entry at or after the begin time"));
         }
 
         // Cache the idx filename and position
